@@ -97,3 +97,70 @@ func specRecHdrByte(r CdrHeader, k int) byte {
 //@ func (CdrHeader).Encoding [C15 C14]
 //@   ensures len(result) == specRecHdrLen(header)
 //@   ensures forall k int in 0..5 :: k < specRecHdrLen(header) ==> result[k] == specRecHdrByte(header, k)
+
+// ---- whole files -------------------------------------------------------------------
+// The file encoder and decoder are executed in place (not by contract) inside the lemma
+// harnesses below, with their record loops unrolled: the record dimension is therefore a
+// BOUNDED check (at most 2 records, stated in the lemma's precondition); the header
+// dimension (all field values, all 64 release-identifier combinations, routeing filter and
+// private extension of any length) is unbounded.
+
+//@ func (CDRFile).Encoding [C14 C15]
+//@   inline
+//@   loop 0: unroll 3
+//@ func (*CDRFile).Decoding [C14]
+//@   inline
+//@   loop 0: unroll 3
+
+func specTsOK(t CdrHdrTimeStamp) bool {
+	return t.MonthLocal <= 15 && t.DateLocal <= 31 && t.HourLocal <= 31 && t.MinuteLocal <= 63 &&
+		t.SignOfTheLocalTimeDifferentialFromUtc <= 1 && t.HourDeviation <= 31 && t.MinuteDeviation <= 63
+}
+
+// specHdrOK: every header field within its TS 32.297 width, length fields consistent with the content
+func specHdrOK(h CdrFileHeader) bool {
+	return h.HighReleaseIdentifier <= 7 && h.HighVersionIdentifier <= 31 && h.LowReleaseIdentifier <= 7 && h.LowVersionIdentifier <= 31 &&
+		specTsOK(h.FileOpeningTimestamp) && specTsOK(h.TimestampWhenLastCdrWasAppendedToFIle) &&
+		int(h.LengthOfCdrRouteingFilter) == len(h.CDRRouteingFilter) && int(h.LengthOfPrivateExtension) == len(h.PrivateExtension) &&
+		(h.HighReleaseIdentifier == 7 || h.HighReleaseIdentifierExtension == 0) && (h.LowReleaseIdentifier == 7 || h.LowReleaseIdentifierExtension == 0)
+}
+
+func specRecOK(r CDR) bool {
+	return r.Hdr.ReleaseIdentifier <= 7 && r.Hdr.VersionIdentifier <= 31 && r.Hdr.DataRecordFormat <= 7 && r.Hdr.TsNumber <= 31 &&
+		int(r.Hdr.CdrLength) == len(r.CdrByte) && (r.Hdr.ReleaseIdentifier == 7 || r.Hdr.ReleaseIdentifierExtension == 0)
+}
+
+func specHdrEq(a, b CdrFileHeader) bool {
+	return a.FileLength == b.FileLength && a.HeaderLength == b.HeaderLength &&
+		a.HighReleaseIdentifier == b.HighReleaseIdentifier && a.HighVersionIdentifier == b.HighVersionIdentifier &&
+		a.LowReleaseIdentifier == b.LowReleaseIdentifier && a.LowVersionIdentifier == b.LowVersionIdentifier &&
+		a.FileOpeningTimestamp == b.FileOpeningTimestamp && a.TimestampWhenLastCdrWasAppendedToFIle == b.TimestampWhenLastCdrWasAppendedToFIle &&
+		a.NumberOfCdrsInFile == b.NumberOfCdrsInFile && a.FileSequenceNumber == b.FileSequenceNumber &&
+		a.FileClosureTriggerReason == b.FileClosureTriggerReason && a.IpAddressOfNodeThatGeneratedFile == b.IpAddressOfNodeThatGeneratedFile &&
+		a.LostCdrIndicator == b.LostCdrIndicator && a.LengthOfCdrRouteingFilter == b.LengthOfCdrRouteingFilter &&
+		a.LengthOfPrivateExtension == b.LengthOfPrivateExtension && len(a.CDRRouteingFilter) == len(b.CDRRouteingFilter) &&
+		len(a.PrivateExtension) == len(b.PrivateExtension) &&
+		a.HighReleaseIdentifierExtension == b.HighReleaseIdentifierExtension && a.LowReleaseIdentifierExtension == b.LowReleaseIdentifierExtension
+}
+
+func specRecHdrEq(a, b CdrHeader) bool {
+	return a.CdrLength == b.CdrLength && a.ReleaseIdentifier == b.ReleaseIdentifier && a.VersionIdentifier == b.VersionIdentifier &&
+		a.DataRecordFormat == b.DataRecordFormat && a.TsNumber == b.TsNumber && a.ReleaseIdentifierExtension == b.ReleaseIdentifierExtension
+}
+
+// Round trip (C14): writing a well-formed structure and reading it back yields an identical structure.
+//@ lemma verifLemmaFileRoundTrip [C14]
+//@   bounded at most 2 records (record loop unrolled); header fields, extension combinations and all lengths unbounded
+//@   requires specHdrOK(f.Hdr) && int(f.Hdr.NumberOfCdrsInFile) == len(f.CdrList) && len(f.CdrList) <= 2
+//@   requires forall j int in 0..2 :: j < len(f.CdrList) ==> specRecOK(f.CdrList[j])
+//@   ensures specHdrEq(g.Hdr, f.Hdr)
+//@   ensures forall k int :: 0 <= k && k < len(f.Hdr.CDRRouteingFilter) ==> g.Hdr.CDRRouteingFilter[k] == f.Hdr.CDRRouteingFilter[k]
+//@   ensures forall k int :: 0 <= k && k < len(f.Hdr.PrivateExtension) ==> g.Hdr.PrivateExtension[k] == f.Hdr.PrivateExtension[k]
+//@   ensures len(g.CdrList) == len(f.CdrList)
+//@   ensures forall j int in 0..2 :: j < len(f.CdrList) ==> specRecHdrEq(g.CdrList[j].Hdr, f.CdrList[j].Hdr) && len(g.CdrList[j].CdrByte) == len(f.CdrList[j].CdrByte)
+//@   ensures forall j int in 0..2 :: j < len(f.CdrList) ==> forall k int :: 0 <= k && k < len(f.CdrList[j].CdrByte) ==> g.CdrList[j].CdrByte[k] == f.CdrList[j].CdrByte[k]
+func verifLemmaFileRoundTrip(f CDRFile, name string) (g CDRFile) {
+	f.Encoding(name)
+	g.Decoding(name)
+	return g
+}
